@@ -763,7 +763,25 @@ def auto_helper(file, type_name, fn_name, known=()):
     return None
 
 
-def auto_helper_near(label, fn_name, gen_text, gen_line, known=()):
+def find_const_literal(files, type_name, name):
+    """Initializer text of `const <name>` in an inherent impl of <type_name>, if it is a plain literal."""
+    for file in files:
+        src, masked = _load(file)
+        for (k, start, header, body, end) in R.items_in(masked, 0, len(src)):
+            if k != "impl" or body is None:
+                continue
+            hn = R.header_name("impl", header)
+            if not re.match(r"impl(<[^>]*>)?%s(<.*>)?$" % re.escape(type_name), hn.replace(" ", "")):
+                continue
+            for (k2, s2, h2, b2, e2) in R.items_in(masked, body + 1, end - 1):
+                if k2 == "const" and R.header_name("const", h2) == name:
+                    mm = re.search(r"=\s*([0-9][0-9_a-zA-Z]*)\s*;", src[s2:e2])
+                    if mm:
+                        return mm.group(1)
+    return None
+
+
+def auto_helper_near(label, fn_name, gen_text, gen_line, known=(), ty=None):
     """Same, located by POSITION: the helper is searched in the source `impl` block (then module)
     that the calling extracted function came from, and emitted under the `impl` header that
     encloses the caller in the generated file (units re-home impls of type aliases)."""
@@ -798,8 +816,10 @@ def auto_helper_near(label, fn_name, gen_text, gen_line, known=()):
             if const_item:
                 where = " >> ".join([file] + path[:cut] + ["const " + fn_name])
                 break
+    hdr_override = None
     if not item and not const_item:
-        # sibling impl blocks of the same module (e.g. an inherent impl next to a trait impl)
+        # sibling impl blocks of the same module (e.g. an inherent impl next to a trait impl); the
+        # helper is emitted under an impl of ITS OWN type (the type the compiler named)
         mods = [seg for seg in path if seg.startswith("mod ")]
         try:
             if mods:
@@ -810,12 +830,18 @@ def auto_helper_near(label, fn_name, gen_text, gen_line, known=()):
             for (k1, s1, h1, b1, e1) in R.items_in(masked, lo, hi):
                 if k1 != "impl" or b1 is None:
                     continue
+                hname = R.header_name("impl", h1)
+                if ty and not re.search(r"\b%s\b" % re.escape(ty), hname):
+                    continue
+                selfty = hname.split(" for ")[-1] if " for " in hname else re.sub(r"^impl(<[^>]*>)?\s*", "", hname)
                 for (k2, s2, h2, b2, e2) in R.items_in(masked, b1 + 1, e1 - 1):
                     if k2 == "fn" and R.header_name("fn", h2) == fn_name and not item:
                         item = src[s2:e2]
+                        hdr_override = "impl " + selfty.strip()
                         where = " >> ".join([file] + mods + [R.header_name("impl", h1), "fn " + fn_name])
                     elif k2 == "const" and R.header_name("const", h2) == fn_name and not const_item:
                         const_item = src[s2:e2]
+                        hdr_override = "impl " + selfty.strip()
                         where = " >> ".join([file] + mods + [R.header_name("impl", h1), "const " + fn_name])
         except R.LostAnchor:
             pass
@@ -828,6 +854,8 @@ def auto_helper_near(label, fn_name, gen_text, gen_line, known=()):
         if mm:
             hdr = mm.group(1)
             break
+    if hdr_override:
+        hdr = hdr_override
     if hdr is None:
         return None, None
     if const_item:
@@ -907,6 +935,7 @@ def run_unit(unit, timeout=600, with_canary=True):
     # automatically, transparent via an auto-generated spec twin (see auto_helper)
     helpers_added = []
     done_pairs = set()
+    const_inline = {}         # (type, NAME) -> literal, for constants referenced inside auto-extracted helpers
     helper_reqs = []          # (fn_name, type name, label of the calling block or None, generated line)
     base_text = text
     for _round in range(4):
@@ -940,6 +969,12 @@ def run_unit(unit, timeout=600, with_canary=True):
                     if a_ <= gl <= b_:
                         label = label_
                         break
+            if label is None:
+                lit = find_const_literal(files, ty, fn_name)
+                if lit is not None:
+                    const_inline[(ty, fn_name)] = lit
+                    new_req = True
+                    continue
             helper_reqs.append((fn_name, ty, label, gl))
             new_req = True
         if not new_req:
@@ -953,7 +988,7 @@ def run_unit(unit, timeout=600, with_canary=True):
             h = None
             if label is not None:
                 try:
-                    h, where_ = auto_helper_near(label, fn_name, base_text, gl, known)
+                    h, where_ = auto_helper_near(label, fn_name, base_text, gl, known, ty)
                 except Exception:
                     h = None
                 if h:
@@ -969,6 +1004,10 @@ def run_unit(unit, timeout=600, with_canary=True):
                     extra += h
                     helpers_added.append("%s >> impl %s >> fn %s" % (f, ty, fn_name))
                     break
+        for (cty, cname), lit in const_inline.items():
+            # R6 inside helpers: `Self::CONST` / `Type::CONST` -> its literal
+            extra = re.sub(r"\b(Self|%s(<[^>]*>)?)::%s\b" % (re.escape(cty), re.escape(cname)), lit, extra)
+            helpers_added.append("constant %s::%s = %s inlined in the helpers" % (cty, cname, lit))
         if not extra:
             break
         marker = "} // verus!"
